@@ -255,7 +255,8 @@ class DataclassAdapter(GenericCallAdapter):
         kwargs = {}
 
         for field in fields(value):  # type: ignore
-            if field.repr:
+            # repr=False fields are still part of the value when they are compared
+            if field.repr or (field.init and field.compare):
                 field_value = getattr(value, field.name)
                 is_default = False
 
@@ -298,7 +299,8 @@ else:
             kwargs = {}
 
             for field in attrs.fields(type(value)):
-                if field.repr:
+                # repr=False fields are still part of the value when they are compared
+                if field.repr or (field.init and field.eq):
                     field_value = getattr(value, field.name)
                     is_default = False
 
